@@ -9,6 +9,7 @@ package logic
 // not numbers or numeric text never satisfy an ordering test.
 
 //@ func MatchesCondition
+//@   vars trav cond val condVal valN err condN valN err condN valN err condN valN err condN vals err lower upper valF vals err lower upper valF vals err lower upper valF found condVal condVal v found condVal condVal v found val val v
 //@   property C08 C06
 //@   option prelude=json
 //@   option load=gripql,jsonpath,gdbi
@@ -52,6 +53,7 @@ package logic
 // axioms are the input model: what protobuf/JSON decoding can produce (payload of a
 // populated oneof wrapper and elements of a repeated field are never nil).
 //@ func MatchesHasExpression
+//@   vars trav stmt cond and andRes e r or orRes e r e
 //@   property C08 C06
 //@   option prelude=json
 //@   option load=gripql,jsonpath,gdbi
